@@ -48,7 +48,16 @@ func init() {
 	}
 	Registry["C05"] = &Check{Level: "model_checking", Run: poisoned(c05)}
 	Registry["C08"] = &Check{Level: "model_checking", Run: poisoned(c08)}
-	Registry["C20"] = &Check{Level: "model_checking", Run: poisoned(c20)}
+	Registry["C20"] = &Check{Level: "model_checking", Run: func(r *core.Run) {
+		poisoned(c20)(r)
+		// whole procedures run by the real binary: reads around nested executions (EXECUTE, SOURCE, prepared statements, function
+		// calls) and commits of another process (an external command of the procedure)
+		nsim := 150
+		if r.Thorough {
+			nsim = 2000
+		}
+		r.Coverage["script_procedures"] = txnScriptReplay(r, []string{"TxnScriptGen_nested.cfg"}, nsim, "c20")
+	}}
 	Registry["C01"] = &Check{Level: "model_checking", Run: runC01}
 }
 
@@ -116,6 +125,7 @@ func txnInitTables(init Action) map[string]jtable {
 
 func txnSetup(dir string, init Action) []string {
 	_ = os.MkdirAll(filepath.Join(dir, "sub"), 0755)
+	writeFile(filepath.Join(dir, "nest.sql"), "@z := 1;\n")
 	for f, t := range txnInitTables(init) {
 		if !t.Absent {
 			writeFile(filepath.Join(dir, f+".csv"), tableBytes(f, t))
@@ -142,7 +152,7 @@ func txnSetup(dir string, init Action) []string {
 // that runs off its end and one inserting function per table
 var txnPreamble = []string{"DECLARE tt VIEW (id, v);", "VAR @z;", "DECLARE noop FUNCTION () AS BEGIN VAR @q := 1; END;",
 	"DECLARE ins_f1 FUNCTION (@k) AS BEGIN INSERT INTO `f1.csv` VALUES (@k, 1); END;", "DECLARE ins_f2 FUNCTION (@k) AS BEGIN INSERT INTO `f2.csv` VALUES (@k, 1); END;",
-	"DECLARE ins_tt FUNCTION (@k) AS BEGIN INSERT INTO tt VALUES (@k, 1); END;"}
+	"DECLARE ins_tt FUNCTION (@k) AS BEGIN INSERT INTO tt VALUES (@k, 1); END;", "PREPARE pz FROM '@z := 3';"}
 
 func tname(t string) string {
 	if t == "tt" {
@@ -263,6 +273,12 @@ func txnSQL(a Action) string {
 		return "CREATE TABLE `f3.csv` (id, v) AS SELECT id, v FROM " + u + ";"
 	case "callnoop":
 		return "@z := noop();"
+	case "nestexec":
+		return "EXECUTE '@z := 2';"
+	case "nestsource":
+		return "SOURCE `nest.sql`;"
+	case "nestprep":
+		return "EXECUTE pz;"
 	case "callins":
 		return fmt.Sprintf("@z := ins_%s(%d);", aStr(a, "t"), k)
 	case "create":
@@ -385,8 +401,12 @@ func txnExec(p *sut.Proc, a Action) Out {
 		return Out{K: "val", Vals: showFile(filepath.Join(p.Dir, aStr(a, "t")+".csv"), true)}
 	case "env":
 		return envCommit(p, aStr(a, "t"))
-	case "create", "commit", "rollback", "setenc", "createas", "callnoop":
-		r := p.Exec(txnSQL(a))
+	case "create", "commit", "rollback", "setenc", "createas", "callnoop", "nestexec", "nestsource", "nestprep":
+		sql := txnSQL(a)
+		if actName(a) == "nestsource" {
+			sql = "SOURCE `" + filepath.Join(p.Dir, "nest.sql") + "`;"
+		}
+		r := p.Exec(sql)
 		if r.Err != "" {
 			return Out{K: "err", E: errClass(r), Vals: []string{}}
 		}
@@ -668,8 +688,16 @@ func runC01(r *core.Run) {
 	if r.Thorough {
 		nsim = 4000
 	}
+	n := txnScriptReplay(r, []string{"TxnScriptGen.cfg", "TxnScriptGen_commitfail.cfg", "TxnScriptGen_create.cfg", "TxnScriptGen_temp.cfg", "TxnScriptGen_two.cfg", "TxnScriptGen_nested.cfg"}, nsim, "c01")
+	r.Coverage["traces_validated_against_impl"] = n
+	r.Coverage["exhaustive"] = false
+}
+
+// txnScriptReplay: TLC (TxnScriptGen, script mode) writes whole procedures; each is run by the real binary and stdout, exit
+// code and files are compared with what the specification says.  pre: prefix of the signatures (the check that asked).
+func txnScriptReplay(r *core.Run, cfgs []string, nsim int, pre string) int {
 	var behs []c01beh
-	for gi, gcfg := range []string{"TxnScriptGen.cfg", "TxnScriptGen_commitfail.cfg", "TxnScriptGen_create.cfg", "TxnScriptGen_temp.cfg", "TxnScriptGen_two.cfg"} {
+	for gi, gcfg := range cfgs {
 		ns := nsim
 		if gi > 0 {
 			ns = nsim * 2
@@ -722,6 +750,11 @@ func runC01(r *core.Run) {
 				writeFile(filepath.Join(repo, f+".csv"), initBytes[f])
 			}
 		}
+		writeFile(filepath.Join(repo, "nest.sql"), "@z := 1;\n")
+		// another process that appends a row (all columns 90 + n) to a table and commits: an external command of the procedure
+		writeFile(filepath.Join(dir, "env.sh"), "f=$1; n=$2; cols=$(head -1 \"$3/$f.csv\" | tr ',' '\\n' | wc -l); vals=$n; i=1; while [ $i -lt $cols ]; do vals=\"$vals, $n\"; i=$((i+1)); done\n"+
+			"exec \"$4\" --repository \"$3\" --quiet --wait-timeout 0.3 \"INSERT INTO \\`$f.csv\\` VALUES ($vals); COMMIT;\"\n")
+		envn := 0
 		var sql strings.Builder
 		sql.WriteString(strings.Join(txnPreamble, "\n") + "\n")
 		var selects []Out
@@ -731,9 +764,18 @@ func runC01(r *core.Run) {
 			if actName(a) == "setenc" {
 				attrChanged[aStr(a, "t")] = true
 			}
+			if actName(a) == "env" {
+				fmt.Fprintf(&sql, "$sh %s %s %d %s %s;\n", filepath.Join(dir, "env.sh"), aStr(a, "t"), 90+envn, repo, r.Csvq)
+				envn++
+				continue
+			}
+			if actName(a) == "nestsource" {
+				fmt.Fprintf(&sql, "SOURCE `%s`;\n", filepath.Join(repo, "nest.sql"))
+				continue
+			}
 			sql.WriteString(txnSQL(a))
 			sql.WriteByte('\n')
-			if n := actName(a); (n == "select" || n == "selectsub" || n == "selectagg" || n == "selectfn") && b.exps[k].K == "val" {
+			if n := actName(a); (n == "select" || n == "selectsub" || n == "selectagg" || n == "selectfn" || n == "selectinline") && b.exps[k].K == "val" {
 				selects = append(selects, b.exps[k])
 				selectAgg = append(selectAgg, n == "selectagg")
 			}
@@ -750,25 +792,25 @@ func runC01(r *core.Run) {
 		rs := sut.RunBin(sut.BinOpts{Csvq: r.Csvq, Dir: dir, Args: []string{"--repository", repo, "--format", "JSON", "--quiet", "--source", filepath.Join(dir, "prog.sql")}, Timeout: 60 * time.Second})
 		ctx := fmt.Sprintf("program:\n%send=%s exit=%d stderr=%s", sql.String(), b.how, rs.Exit, firstLine(rs.Stderr))
 		if rs.IsFatal() {
-			return res{"c01:fatal", "internal failure\n" + ctx}
+			return res{pre + ":fatal", "internal failure\n" + ctx}
 		}
 		switch b.how {
 		case "error", "commitfail":
 			if rs.Exit == 0 {
-				return res{"c01:error-end:exit0", "a failing statement did not end the run with an error\n" + ctx}
+				return res{pre + ":error-end:exit0", "a failing statement did not end the run with an error\n" + ctx}
 			}
 		default:
 			if rs.Exit != wantExit {
-				return res{fmt.Sprintf("c01:%s-end:exit", b.how), fmt.Sprintf("exit code %d, expected %d\n%s", rs.Exit, wantExit, ctx)}
+				return res{fmt.Sprintf("%s:%s-end:exit", pre, b.how), fmt.Sprintf("exit code %d, expected %d\n%s", rs.Exit, wantExit, ctx)}
 			}
 		}
 		// what the SELECTs showed
 		ts, err := sut.ParseJSONTables(rs.Stdout)
 		if err != nil {
-			return res{"c01:stdout", "cannot parse stdout: " + err.Error() + "\n" + ctx}
+			return res{pre + ":stdout", "cannot parse stdout: " + err.Error() + "\n" + ctx}
 		}
 		if len(ts) != len(selects) {
-			return res{"c01:select-count", fmt.Sprintf("%d result sets printed, %d expected\n%s", len(ts), len(selects), ctx)}
+			return res{pre + ":select-count", fmt.Sprintf("%d result sets printed, %d expected\n%s", len(ts), len(selects), ctx)}
 		}
 		for k, t := range ts {
 			got := []string{"EMPTY"}
@@ -784,7 +826,7 @@ func runC01(r *core.Run) {
 				got = got[2:]
 			}
 			if !sameOut(Out{K: "val", Vals: got}, selects[k]) {
-				return res{"c01:select-contents", fmt.Sprintf("SELECT number %d shows %v, specification %v\n%s", k+1, got, selects[k].Vals, ctx)}
+				return res{pre + ":select-contents", fmt.Sprintf("SELECT number %d shows %v, specification %v\n%s", k+1, got, selects[k].Vals, ctx)}
 			}
 		}
 		// the files afterwards
@@ -797,20 +839,20 @@ func runC01(r *core.Run) {
 				} else if len(got) == 1 && got[0] == "ABSENT" {
 					kind = "file-missing"
 				}
-				return res{"c01:" + b.how + "-end:" + kind, fmt.Sprintf("after the run %s.csv holds %v, specification %v\n%s", f, got, want, ctx)}
+				return res{pre + ":" + b.how + "-end:" + kind, fmt.Sprintf("after the run %s.csv holds %v, specification %v\n%s", f, got, want, ctx)}
 			}
 			// files never written stay byte-identical
 			if ib, ok := initBytes[f]; ok && !attrChanged[f] {
 				init := showFileContent(ib)
 				if sameOut(Out{K: "val", Vals: init}, Out{K: "val", Vals: want}) {
 					if nb, _ := os.ReadFile(filepath.Join(repo, f+".csv")); string(nb) != ib {
-						return res{"c01:untouched-bytes", fmt.Sprintf("%s.csv has the same table but different bytes\n%s", f, ctx)}
+						return res{pre + ":untouched-bytes", fmt.Sprintf("%s.csv has the same table but different bytes\n%s", f, ctx)}
 					}
 				}
 			}
 		}
 		if l := sut.ControlFiles(repo); len(l) > 0 {
-			return res{"c01:control-files", fmt.Sprintf("left behind: %v\n%s", l, ctx)}
+			return res{pre + ":control-files", fmt.Sprintf("left behind: %v\n%s", l, ctx)}
 		}
 		return res{}
 	}
@@ -850,8 +892,7 @@ func runC01(r *core.Run) {
 		reported[x.sig] = true
 		r.Violation(again.sig, again.what, map[string]interface{}{"init": behs[i].init, "actions": behs[i].acts, "end": behs[i].how, "final": behs[i].final})
 	}
-	r.Coverage["traces_validated_against_impl"] = len(behs)
-	r.Coverage["exhaustive"] = false
+	return len(behs)
 }
 
 func showFileContent(content string) []string {
